@@ -34,6 +34,17 @@ def _linalg_args(lem, rng):
         return {'u': u, 'off': off, 'M': M, 'm': m, 'c': c, 'row': row}
     if name == 'ordg_is_dot':
         return {'crow': gens.bits(rng, m + 1), 'gs': gens.bits(rng, m + 1, cols), 'n': m, 'c': c}
+    if name in ('split_acq', 'acqout_ext'):
+        N = int(rng.integers(0, 5)); K = int(rng.integers(0, N + 1))
+        mk = gens.bits(rng, N)
+        x, y = gens.bits(rng, 2 * N + 2), gens.bits(rng, 2 * N + 2)
+        if name == 'split_acq':
+            return {'x': x, 'y': y, 'mask': mk, 'N': N, 'K': K}
+        x2, y2 = x.copy(), y.copy()
+        for k in range(N):
+            if mk[k]:
+                x2[2 * k:2 * k + 2] = gens.bits(rng, 2); y2[2 * k:2 * k + 2] = gens.bits(rng, 2)
+        return {'x': x, 'x2': x2, 'y': y, 'y2': y2, 'mask': mk, 'K': K}
     if name == 'expand_sums':
         N = int(rng.integers(0, 5)); K = int(rng.integers(0, N + 1))
         mk = gens.bits(rng, N)
